@@ -286,6 +286,35 @@ pub struct Reg {
     /// from_i64(i).map(|x| from_i64(x.to_i64()) == Some(x))
     pub roundtrip: fn(i64) -> Option<bool>,
     pub is_private: Option<fn(i64) -> bool>,
+    /// RegisteredLabel::<T>::from_slice
+    pub label: fn(&[u8]) -> Result<LabelClass, coset::CoseError>,
+    /// RegisteredLabelWithPrivate::<T>::from_slice (registries with a private-use range)
+    pub label_private: Option<fn(&[u8]) -> Result<LabelClass, coset::CoseError>>,
+}
+
+/// How a decoded registry label was classified.
+#[derive(Debug, Clone, PartialEq, Eq)]
+pub enum LabelClass {
+    Assigned(String, i64),
+    Private(i64),
+    Text(String),
+}
+
+fn dec_label<T: EnumI64 + std::fmt::Debug>(b: &[u8]) -> Result<LabelClass, coset::CoseError> {
+    use coset::CborSerializable;
+    Ok(match coset::RegisteredLabel::<T>::from_slice(b)? {
+        coset::RegisteredLabel::Assigned(a) => LabelClass::Assigned(format!("{:?}", a), a.to_i64()),
+        coset::RegisteredLabel::Text(t) => LabelClass::Text(t),
+    })
+}
+
+fn dec_label_private<T: EnumI64 + WithPrivateRange + std::fmt::Debug>(b: &[u8]) -> Result<LabelClass, coset::CoseError> {
+    use coset::CborSerializable;
+    Ok(match coset::RegisteredLabelWithPrivate::<T>::from_slice(b)? {
+        coset::RegisteredLabelWithPrivate::Assigned(a) => LabelClass::Assigned(format!("{:?}", a), a.to_i64()),
+        coset::RegisteredLabelWithPrivate::PrivateUse(i) => LabelClass::Private(i),
+        coset::RegisteredLabelWithPrivate::Text(t) => LabelClass::Text(t),
+    })
 }
 
 fn probe<T: EnumI64 + std::fmt::Debug>(i: i64) -> Option<(String, i64)> {
@@ -304,10 +333,12 @@ macro_rules! reg {
             from_i64: probe::<$t>,
             roundtrip: rt::<$t>,
             is_private: Some(<$t as WithPrivateRange>::is_private),
+            label: dec_label::<$t>,
+            label_private: Some(dec_label_private::<$t>),
         }
     };
     ($t:ty, $table:ident) => {
-        Reg { name: stringify!($t), table: $table, has_private: false, from_i64: probe::<$t>, roundtrip: rt::<$t>, is_private: None }
+        Reg { name: stringify!($t), table: $table, has_private: false, from_i64: probe::<$t>, roundtrip: rt::<$t>, is_private: None, label: dec_label::<$t>, label_private: None }
     };
 }
 
